@@ -79,10 +79,13 @@ func (p *PhyPort) UnmarshalBinary(data []byte) error {
 	n := 4
 	copy(p.pad, data[n:n+4])
 	n += 4
+	// do not rely on the receiver having been built by NewPhyPort
+	p.HWAddr = make([]byte, ETH_ALEN)
 	copy(p.HWAddr, data[n:n+6])
 	n += 6
 	copy(p.pad2, data[n:n+2])
 	n += 2
+	p.Name = make([]byte, MAX_PORT_NAME_LEN)
 	copy(p.Name, data[n:n+16])
 	n += 16
 
